@@ -422,6 +422,17 @@ func execV4Acc(op string, args []string) string {
 		a := findAcc(c.acc)
 		p := &dhcpv4.DHCPv4{Options: dhcpv4.Options{}}
 		p.UpdateOption(c.mk(args[1]))
+		// the value is read back LATER: other packets get their options in between
+		// (seeded change C17-13: list-valued encoders sharing a pooled scratch buffer,
+		// handed out uncopied for values beyond 256 bytes)
+		other := &dhcpv4.DHCPv4{Options: dhcpv4.Options{}}
+		other.UpdateOption(dhcpv4.OptRouter(net.IP{10, 9, 9, 1}, net.IP{10, 9, 9, 2}))
+		other.UpdateOption(dhcpv4.OptDNS(net.IP{10, 9, 9, 53}, net.IP{10, 9, 9, 54}, net.IP{10, 9, 9, 55}))
+		other.UpdateOption(dhcpv4.OptParameterRequestList(dhcpv4.OptionTimeOffset, dhcpv4.OptionNTPServers))
+		other.UpdateOption(dhcpv4.OptUserClass("other-class"))
+		other.UpdateOption(dhcpv4.OptRFC3004UserClass([]string{"a", "bc"}))
+		other.UpdateOption(dhcpv4.OptClasslessStaticRoute(&dhcpv4.Route{Dest: &net.IPNet{IP: net.IP{10, 9, 0, 0}, Mask: net.CIDRMask(16, 32)}, Router: net.IP{10, 9, 9, 9}}))
+		other.ToBytes()
 		return "ok raw=" + hxOpt(p.Options[a.code]) + " get=" + a.run(p, time.Duration(atoi64(args[2])))
 	}
 	return "bad-op"
@@ -769,6 +780,11 @@ func genIPArg(r *Rng) string {
 
 func genListArg(r *Rng, maxN int, el func() string) string {
 	n := r.Range(0, maxN)
+	if r.Chance(1, 12) {
+		// a list whose encoding passes 255 / 256 bytes (an RFC 3396 long option): 64+
+		// addresses, 29+ routes, ... - where an encoder's small-value path ends
+		n = r.Pick([]int{29, 40, 63, 64, 65, 70})
+	}
 	if n == 0 {
 		return "[]"
 	}
